@@ -5,6 +5,7 @@ import (
 	"encoding/binary"
 	"errors"
 	"fmt"
+	"strings"
 
 	"github.com/gorilla/websocket"
 	"pgregory.net/rapid"
@@ -26,6 +27,8 @@ type CloseCase struct {
 	// Via: control | msg | writer | prepared | peerclose | peerviolation | peerbig
 	Via  string `json:"via"`
 	Code int    `json:"code"`
+	// ReasonLen: length of the close reason the application sends (0..123).
+	ReasonLen int `json:"reason_len,omitempty"`
 }
 
 func genCloseCase(t *rapid.T) CloseCase {
@@ -34,11 +37,13 @@ func genCloseCase(t *rapid.T) CloseCase {
 	c.W.WriteBuf = genBuf(t, "wbuf")
 	c.W.Pool = rapid.Bool().Draw(t, "pool")
 	c.W.Compress = rapid.Bool().Draw(t, "compress")
+	c.W.HSTimeout = rapid.IntRange(0, 2).Draw(t, "hs_timeout") == 0
 	c.Steps = genWriteProgram(t, c.W.EffWriteBuf(), WGenOpts{MaxSteps: 8, AllowHuge: false, AllowBad: true, AllowClose: false, AllowCtl: true})
 	c.At = rapid.IntRange(0, len(c.Steps)).Draw(t, "at")
 	c.InPart = -1
 	c.Via = rapid.SampledFrom([]string{"control", "control", "msg", "writer", "prepared", "peerclose", "peerclose_custom", "peerviolation", "peerbig"}).Draw(t, "via")
 	c.Code = rapid.SampledFrom([]int{1000, 1001, 1008, 3000, 4999, 0}).Draw(t, "code")
+	c.ReasonLen = rapid.SampledFrom([]int{0, 0, 1, 61, 62, 63, 64, 100, 122, 123}).Draw(t, "reason_len")
 	// prefer positions inside an open message when there is one
 	var writers []int
 	for i, s := range c.Steps {
@@ -58,16 +63,25 @@ func genCloseCase(t *rapid.T) CloseCase {
 	return c
 }
 
-func closeBodyFor(code int) []byte {
+func closeBodyFor(code int) []byte { return closeBodyOf(code, 4) }
+
+func (c CloseCase) reasonLen() int {
+	if c.ReasonLen <= 0 || c.ReasonLen > 123 {
+		return 4
+	}
+	return c.ReasonLen
+}
+
+func closeBodyOf(code, reasonLen int) []byte {
 	if code == 0 {
 		return []byte{}
 	}
-	return websocket.FormatCloseMessage(code, "done")
+	return websocket.FormatCloseMessage(code, strings.Repeat("done", 31)[:reasonLen])
 }
 
 // withClose returns the program with the close action inserted.
 func (c CloseCase) withClose() []WStep {
-	body := closeBodyFor(c.Code)
+	body := closeBodyOf(c.Code, c.reasonLen())
 	d := Payload{Len: len(body), Kind: "raw", Raw: body}
 	var out []WStep
 	for i, s := range c.Steps {
@@ -176,8 +190,8 @@ func judgeAfterClose(c CloseCase, tw *WTrace, wrote []byte, o *Obs) error {
 	case "peerclose", "peerclose_custom":
 		wantCode = c.Code
 	default:
-		if !bytes.Equal(p, closeBodyFor(c.Code)) {
-			return fmt.Errorf("close frame payload %s differs from what the application sent %s", abbrev(p), abbrev(closeBodyFor(c.Code)))
+		if !bytes.Equal(p, closeBodyOf(c.Code, c.reasonLen())) {
+			return fmt.Errorf("close frame payload %s differs from what the application sent %s", abbrev(p), abbrev(closeBodyOf(c.Code, c.reasonLen())))
 		}
 	}
 	if wantCode > 0 {
